@@ -213,6 +213,11 @@ def run(ctx):
                                 ok = True
                 if not ok:
                     bad_exit.append((a, b))
+        # every iteration delivers: with the delivery call removed, the loop header must no longer be in a cycle
+        nexts = [b for b in comp if (fn.call_name(b) or '').endswith('::next')]
+        skip = [c for c in fn.sccs(removed_nodes={cb[0]}) if any(n in c for n in nexts)]
+        if skip and not bad_exit:
+            r5.bad('loop|%s|every-iteration' % what, 'an iteration of the loop over the %s can skip the delivery call (conditional continue): some %s never receive the safe state' % (what, what), loc=fn.loc(cb[0]))
         if bad_exit:
             a, b = bad_exit[0]
             r5.bad('loop|%s' % what, 'the loop over the %s can be left early (line %d): after one failure the remaining %s never receive the safe state' % (what, fn.line(a), what), loc=fn.loc(a))
@@ -251,6 +256,19 @@ def run(ctx):
             r6.ok('latch-writer|clear')
         else:
             r6.bad('latch-writer|%s' % k, 'FaultSubsystem.faulted is written (%s) outside record/clear' % vals, loc='%s:%d' % (fx.fns[k]['file'], fx.fns[k]['line']))
+    # the latch write is unconditional inside record / clear
+    for nm, val in (('record', 'true'), ('clear', 'false')):
+        rec = fx.fns.get(FS + nm)
+        if rec is None:
+            continue
+        fn = F(rec)
+        blocks = [b for b in fn.g if fn.assigns_field(b, lambda f: f.endswith('FaultSubsystem.faulted'))]
+        ok, path = fn.must_pass_from([0], blocks)
+        if blocks and ok:
+            r6.ok('latch-unconditional|%s' % nm, loc=fn.loc(blocks[0]))
+        else:
+            r6.bad('latch-unconditional|%s' % nm, 'FaultSubsystem::%s can return without writing the latch (faulted = %s is conditional): a later fault would not halt the resource' % (nm, val),
+                   loc=fn.loc(0), witness={'path_lines': fn.path_lines(path)})
     if FS + 'record' not in writers:
         r6.bad('latch-writer|record', 'FaultSubsystem::record no longer sets the latch')
     cs = sorted({a for a, _, _ in cg.callers(FS + 'clear')})
